@@ -46,6 +46,7 @@ pub fn class_table(text: &str) -> String {
 /// every text the number branch of the tokenizer could hand to `f64::from_str`: from each numeric character, the run
 /// of numeric characters with at most one dot (computed from the text alone, not by the tokenizer)
 pub fn number_table(text: &str) -> String {
+    if !crate::util::ship_facts(crate::util::SITE_NUMBERS) { return "()".to_owned(); }
     let chars: Vec<char> = text.chars().collect();
     let mut set: BTreeSet<String> = BTreeSet::new();
     for i in 0..chars.len() {
